@@ -360,11 +360,12 @@ def run_check(prop, cfg, tier, seed, workdir):
     if forbidden:
         broken.append("forbidden constructs in Lean sources: %s" % forbidden[:3])
     if tier == "thorough" and ok_thm:
-        rc, o, dtc = sh(["lake", "env", "leanchecker", module], cwd=LEAN, timeout=3600)
-        log("[%s] leanchecker %s rc=%d (%.1fs)" % (prop, module, rc, dtc))
-        if rc != 0:
-            broken.append("leanchecker rejects %s: %s" % (module, o[-300:]))
-        notes.append("leanchecker rc=%d" % rc)
+        for mod in [module] + more:
+            rc, o, dtc = sh(["lake", "env", "leanchecker", mod], cwd=LEAN, timeout=3600)
+            log("[%s] leanchecker %s rc=%d (%.1fs)" % (prop, mod, rc, dtc))
+            if rc != 0:
+                broken.append("leanchecker rejects %s: %s" % (mod, o[-300:]))
+            notes.append("leanchecker %s rc=%d" % (mod, rc))
     # 4/5. cases through the real code and the model/spec driver
     res = run_cases(prop, cfg, tier, seed, workdir, "main")
     if "error" in res:
@@ -436,7 +437,7 @@ def run_check(prop, cfg, tier, seed, workdir):
             "obligations": len(stated), "discharged": len(discharged),
             "obligation_names": stated,
             "checker_cmd": "cd /verif/lean && lake build %s && lake env lean <audit of #print axioms>%s" %
-                           (module, " && lake env leanchecker " + module if tier == "thorough" else ""),
+                           (" ".join([module] + more), " && lake env leanchecker <each module>" if tier == "thorough" else ""),
             "trusted_base": sorted(axioms_used) + cfg.get("trusted", []) + [
                 "Lean 4 kernel", "rustc + cfg-guarded hooks + fqv dump-tables + tools/gen_tables.py (translator)",
                 "harness/driver line protocol and generators (correspondence)"],
